@@ -133,6 +133,11 @@ pub fn jobs(tier: Tier, seed: u64) -> Vec<Job> {
             out.push(Job { opts: crate::checks::c19::nest_opts(&d), alpha: crate::checks::c19::nest_alphabet(&d), len: tier.pick(4, 5), env: vec![] });
         }
     }
+    // fallback_to_usage on every level of command trees (the "was the line empty" test)
+    for l in crate::checks::c01::with_usage_fallback(fam::conventional(1, &fam::cmd_tails(seed, true, false), seed + 2)).into_iter().step_by(tier.pick(3, 1)) {
+        let alpha = alphabet(&l, AlphaStyle::Compact);
+        out.push(Job { opts: l.to_opts(), alpha, len: 3, env: vec![] });
+    }
     // group titles made of multi-byte characters (the title is also turned into a completion
     // description in builds with autocomplete, on every evaluation)
     for title in ["Опции", "网络", "ネットワーク設定", "Настройки сети:", "Paramètres réseau"] {
